@@ -333,7 +333,7 @@ def params(dev: dict) -> dict:
     return P
 
 
-def make_ctx(dev: dict):
+def make_ctx(dev: dict, cache: bool = False):
     P = params(dev)
     cfg = Config()
     decay = {"mode": "exp_floor", "rate": 0.6, "floor": 0.05} if P["decay"] == "exp" else {"mode": "attn_quad", "alpha": 0.8}
@@ -346,7 +346,7 @@ def make_ctx(dev: dict):
         "queue_budget": P["queue"],
         "radius_cap": P["radius"],
         "relax_cap": P["relax"],
-        "cache": {"enabled": False, "max_entries": 0, "ttl_s": 0},
+        "cache": ({"enabled": True, "max_entries": 64, "ttl_s": 300} if cache else {"enabled": False, "max_entries": 0, "ttl_s": 0}),
     }
     if P["perf"] != "off":
         t1p = {"caps": {}}
@@ -370,8 +370,16 @@ def make_ctx(dev: dict):
     return ctx, P
 
 
-def world_graphs(edges, world):
-    gs = [("g", NODES, list(edges))]
+# family "arms": two paths of different hop length from the seed s to v (s->a->b->v and s->c->v) and a successor w of v.
+# With a weak first edge on the short arm the max-heap reaches v over the LONG arm first; the hop distance of v must
+# still become the short one (radius / layer caps are stated in hops from a seed).
+ARM_NODES = [("s", "seed", None), ("a", "aa", None), ("b", "bb", None), ("c", "cc", None), ("v", "vv", None), ("w", "ww", None)]
+ARM_EDGES = [("s", "a"), ("a", "b"), ("b", "v"), ("s", "c"), ("c", "v"), ("v", "w")]
+ARM_TEXTS = ["seed", "seed and cc"]
+
+
+def world_graphs(edges, world, nodes=None):
+    gs = [("g", nodes or NODES, list(edges))]
     if world == "two":
         gs.append(("h", H_NODES, H_EDGES))
     return gs
@@ -547,9 +555,9 @@ PERF_COUNTERS = [("t1_frontier_evicted", "frontier_evicted"), ("t1_dedup_hits", 
 FAR = 10 ** 9
 
 
-def make_scene(edges, text, world):
+def make_scene(edges, text, world, nodes=None):
     """everything the statement-level oracle needs that depends only on (graph, text, world)"""
-    graphs = world_graphs(edges, world)
+    graphs = world_graphs(edges, world, nodes)
     sc = {"graphs": graphs, "active": [g[0] for g in graphs], "node_graph": {}, "seeds": {}, "dist": {}, "edges": list(edges),
           "text": text}
     for gid, nodes, ged in graphs:
@@ -767,17 +775,97 @@ def observe_digest(res):
     return (repr(res.graph_deltas), repr(sorted(res.metrics.items())), tuple(OBS.pop_trace), OBS.acc_sets, OBS.edges_iter, OBS.weight_reads)
 
 
-def check_case(edges, text, dev):
+def check_case(edges, text, dev, nodes=None):
     edges = [tuple(e) for e in edges]
     ctx, P = make_ctx(dev)
-    sc = make_scene(edges, text, P["world"])
+    if nodes is not None:
+        nodes = [(i, l, (list(t) if t is not None else None)) for i, l, t in nodes]
+    sc = make_scene(edges, text, P["world"], nodes)
     res, store, before, state = execute(sc, ctx, P)
     V, _oc, _nt = judge(sc, dev, P, res, store, before, state)
     return V
 
 
-def _case(edges, text, dev):
-    return {"nodes": [[i, l, t] for i, l, t in NODES], "edges": [list(e) for e in edges], "text": text, "cfg": dict(dev)}
+def _case(edges, text, dev, nodes=None):
+    return {"nodes": [[i, l, t] for i, l, t in (nodes or NODES)], "edges": [list(e) for e in edges], "text": text, "cfg": dict(dev)}
+
+
+def arm_graphs():
+    out = []
+    for ws in itertools.product((0.125, 1.0), repeat=len(ARM_EDGES)):
+        out.append(tuple((a, b, w, "supports") for (a, b), w in zip(ARM_EDGES, ws)))
+    return out
+
+
+def _t1_view(res):
+    if isinstance(res, Exception):
+        return ("exc", type(res).__name__)
+    m = res.metrics
+    return (repr(res.graph_deltas), tuple((k, m.get(k)) for k in COUNTERS))
+
+
+def _warm_worker(chunk, st: Stats, tier):
+    """Budgets bind whatever an earlier call left in the process-global result cache: the same text on the same store is
+    propagated first WITHOUT slice caps (cache on), then with the slice caps of the configuration; the second result
+    must equal the cold result under those caps (deltas and the six counters)."""
+    install()
+    devs = [d for d in enum_devs(tier == "thorough", 2) if d.get("slice_pops") is not None or d.get("slice_iters") is not None]
+    for edges, nodes, texts in chunk:
+        for text in texts:
+            for dev in devs:
+                loose = {k: v for k, v in dev.items() if k not in ("slice_pops", "slice_iters")}
+                ctx_t, P = make_ctx(dev, cache=True)
+                ctx_l, _Pl = make_ctx(loose, cache=True)
+                sc = make_scene(edges, text, P["world"], nodes)
+                for order in ("loose-then-tight", "tight-then-loose"):
+                    first, second = (ctx_l, ctx_t) if order == "loose-then-tight" else (ctx_t, ctx_l)
+                    store = build_store(sc["graphs"])
+                    state = {"store": store, "active_graphs": list(sc["active"])}
+                    reset_caches()
+                    OBS.reset(P["node_budget"])
+                    try:
+                        cold = _t1_view(t1mod.t1_propagate(second, {"store": build_store(sc["graphs"]), "active_graphs": list(sc["active"])}, text))
+                    except Exception as e:  # noqa
+                        cold = _t1_view(e)
+                    reset_caches()
+                    try:
+                        t1mod.t1_propagate(first, state, text)
+                        warm = _t1_view(t1mod.t1_propagate(second, state, text))
+                    except Exception as e:  # noqa
+                        warm = _t1_view(e)
+                    finally:
+                        reset_caches()
+                    st.add("transitions", 3)
+                    st.add("validated")
+                    st.add("states")
+                    st.add("warm_cases")
+                    st.distinct("outcomes", ("warm", cold == warm, order))
+                    if cold != warm:
+                        st.violation("warm-cache:%s:result-differs-from-cold" % order,
+                                     "t1_propagate after a call with %s slice caps returned %s, cold under the same caps %s (cache on)" % (
+                                         "no" if order == "loose-then-tight" else "tighter", warm, cold),
+                                     dict(_case(edges, text, dev, nodes), warm=order))
+
+
+def _arms_worker(chunk, st: Stats, tier):
+    install()
+    devs = [(dev,) + make_ctx(dev) for dev in enum_devs(tier == "thorough", 2 if tier == "thorough" else 1)]
+    for edges in chunk:
+        for text in ARM_TEXTS:
+            scenes = {w: make_scene(edges, text, w, ARM_NODES) for w in ("one", "two")}
+            for dev, ctx, P in devs:
+                sc = scenes[P["world"]]
+                res, store, before, state = execute(sc, ctx, P)
+                st.add("transitions")
+                st.add("states")
+                st.add("arm_cases")
+                V, outcome, nontrivial = judge(sc, dev, P, res, store, before, state)
+                st.add("validated")
+                st.distinct("outcomes", ("arms", outcome))
+                if nontrivial:
+                    st.add("nontrivial")
+                for sig, what in V:
+                    st.violation(sig, what, _case(edges, text, dev, ARM_NODES))
 
 
 def _worker(chunk, st: Stats, tier):
@@ -847,6 +935,11 @@ def run(run: Run) -> None:
                 + " x 5 texts (no seed, label, substring + 2 labels, tag, all three) x every config with <=2 deviations over 11 dimensions; "
                 "non-trivial = at least one propagation or cap/budget hit, or pops cut below the number of seeds")
     run.pmap(_worker, list(range(len(space))), extra=(tier,))
+    run.notes["arm_graphs"] = len(arm_graphs())
+    run.pmap(_arms_worker, arm_graphs(), extra=(tier,))
+    warm_items = [(g, None, TEXTS[1:]) for g, _k in space if len(g) <= 1] + [(g, ARM_NODES, ARM_TEXTS[:1]) for g in arm_graphs()[::7]]
+    run.notes["warm_scenes"] = len(warm_items)
+    run.pmap(_warm_worker, warm_items, extra=(tier,))
     run.assume("sequential T1 path only (perf.parallel off; the parallel fan-out is C09's subject); stage cache disabled (t1.cache.enabled=false, perf cache sizes 0) — cache transparency is C05")
     run.assume("an edge whose relation is missing from t1.edge_type_mult spreads with multiplier 0.6 (the 'associates' value; 'associates' is the store's default relation); the statement does not name the fallback")
     run.assume("activation values are not part of T1Result (deltas carry ids only); the rule weight x multiplier x decay(hop distance) is observed through the accumulator/heap proxies and, black-box, through touched sets, counters and max_delta")
@@ -856,4 +949,13 @@ def run(run: Run) -> None:
 
 
 def replay(case):
-    return check_case(case["edges"], case["text"], case["cfg"])
+    if case.get("warm"):
+        st = Stats()
+        nodes = case.get("nodes")
+        nd = None if [n[0] for n in nodes] == [n[0] for n in NODES] else [(i, l, t) for i, l, t in nodes]
+        _warm_worker([([tuple(e) for e in case["edges"]], nd, [case["text"]])], st, "thorough")
+        return [(sg, w) for sg, (w, _c) in st.viol.items()]
+    nodes = case.get("nodes")
+    if nodes is not None and [n[0] for n in nodes] == [n[0] for n in NODES]:
+        nodes = None
+    return check_case(case["edges"], case["text"], case["cfg"], nodes)
